@@ -93,6 +93,20 @@ func runC06(c *core.Ctx) {
 			if !c06isLoad(node, c06Q+"."+spec.end, recv) {
 				return false, "the removed node is not the current " + spec.end
 			}
+			// the NEW end: the value adv stored, or a read of q.end made after adv (a read made before adv is
+			// the removed node itself)
+			isNewEnd := func(v ssa.Value) bool {
+				rv := core.Resolve(v)
+				if rv == core.Resolve(adv.Val) {
+					return true
+				}
+				if c06isLoad(rv, c06Q+"."+spec.end, recv) {
+					if ld, isI := rv.(ssa.Instruction); isI {
+						return core.InstrDominates(adv, ld)
+					}
+				}
+				return false
+			}
 			// on every path after adv: either (other ← nil on the new-end == nil edge) or (newEnd.back ← nil)
 			okPaths := true
 			why := ""
@@ -110,12 +124,12 @@ func runC06(c *core.Ctx) {
 							if key == c06Q+"."+spec.other && core.Resolve(fa.X) == recv {
 								// must be on the new-end == nil edge
 								for _, m := range core.EdgeCmps(b) {
-									if m.Op == token.EQL && core.IsNilConst(m.Y) && c06isLoad(m.X, c06Q+"."+spec.end, recv) {
+									if m.Op == token.EQL && core.IsNilConst(m.Y) && isNewEnd(m.X) {
 										done = true
 									}
 								}
 							}
-							if key == c06Node+"."+spec.back && c06isLoad(fa.X, c06Q+"."+spec.end, recv) {
+							if key == c06Node+"."+spec.back && isNewEnd(fa.X) {
 								done = true
 							}
 						}
